@@ -156,6 +156,8 @@ def conditions(tier):
             out.append(_mk("kdtree", shape, k, letters="AY", inf_radius=inf))
         for shape, k in [((1, 1), 1), ((2, 1), 1), ((1, 1, 1), 1), ((1, 1), 2)]:
             out.append(_mk("hash_based", shape, k, letters="AC", inf_radius=inf))
+    from harness import C14b
+    out += C14b.conditions(tier)
     if tier == "thorough":
         for inf in (False, True):
             out.append(_mk("symdel", (3, 2), 2, inf_radius=inf, budget=1800))
